@@ -1,6 +1,7 @@
 package c
 
 import (
+	"bytes"
 	"crypto/ed25519"
 	"time"
 
@@ -108,6 +109,13 @@ func H_C06_LeaseSet() {
 	nd.Assume(ek[0] == 0 && ek[255] >= 2)
 	spk, serr := dest.SigningPublicKey()
 	nd.Assume(serr == nil)
+	if nd.Bool() {
+		// the signing_key field (revocation key) is an independent key, not a repetition of the destination's
+		_, other := nd.Ed25519Key()
+		ok, oerr := i2ped.NewEd25519PublicKey(other)
+		nd.Assume(oerr == nil)
+		spk = ok
+	}
 	n := nd.IntRange(0, 2)
 	var leases []lease.Lease
 	for i := 0; i < n; i++ {
@@ -135,6 +143,8 @@ func H_C06_LeaseSet() {
 	}
 	nd.Cover("reparsed")
 	nd.Assert(back.Verify() == nil, "ls/verifies-after-wire")
+	bk, bkerr := back.SigningKey()
+	nd.Assert(bkerr == nil && bk != nil && bytes.Equal(bk.Bytes(), spk.Bytes()), "ls/signing-key-field-survives-wire")
 }
 
 // H_C06_OfflineSignature: CreateOfflineSignature output verifies under the signing key's public half, before and after the wire.
